@@ -1126,13 +1126,16 @@ class Ctx(object):
     def sym_bits(self, name, nbits, default=0):
         """Unsigned ``nbits``-bit value as a sum of 0/1 atoms (MSB first: name.0 ...)."""
         t = {}
+        k = 0
         for i in builtins.range(nbits):
             w = nbits - 1 - i
             b = self.sym_int("%s.%d" % (name, i), 0, 1, default=(default >> w) & 1)
             if isinstance(b, SymInt):
                 ((a, _),) = b.t.items()
                 t[a] = 1 << w
-        return SymInt.mk(t, 0)
+            else:
+                k += int(b) << w
+        return SymInt.mk(t, k)
 
     def raw_view(self, x):
         """The same value as an un-normalised RawInt (shares the z3 constants of x)."""
